@@ -16,6 +16,9 @@ CHECKS['C08'] = dict(engine='S', tech=S_TECH + '; two-copy injectivity queries o
 CHECKS['C03'] = dict(engine='S', tech=S_TECH,
     text='bounded symbolic verification of batch verification: honest batches in every order (k<=3) and at sizes across the internal chunk limit verify with exactly k results and result i term-equal to member i\'s mask; in adversarial batches z3 shows the coefficient of every member\'s own proof point cannot vanish (a member that is never examined has coefficient 0); one invalid member at any position leaves a non-zero polynomial; malformed batch shapes are refused',
     note='A1, A2, A3, A4, A5; batch size k and positions are enumerated (k up to 257 quick / 513 thorough), contents symbolic', ref='§5 C03')
+CHECKS['C05'] = dict(engine='S', tech=S_TECH,
+    text='bounded symbolic verification: starting from the symbolic honest (accepted) triple, each component is altered in turn (+delta*X for every proof point/commitment and generator direction X, +delta for scalars, swaps, rounds, tag, promises, bit length, generators, context, also inside batches); the library must return Err in both verifying modes, and z3 shows the altered residual is non-zero for EVERY delta != 0 (scalars) or not identically zero (points/statement)',
+    note='A1, A2, A3, A4, A5; configurations and positions enumerated, values symbolic', ref='§5 C05')
 NA = {
 }
 def main():
